@@ -1,6 +1,7 @@
 import VM.Driver.Result
 import VM.Driver.SchemaFam
 import VM.Driver.HistoryFam
+import VM.Driver.ValuesFam
 open Lean VM.Driver
 
 def dispatch (j : Json) : Json :=
@@ -8,6 +9,7 @@ def dispatch (j : Json) : Json :=
   | "result" => runResultCase j
   | "schema" | "schemamal" => runSchemaCase j
   | "history" | "historypanic" => runHistoryCase j
+  | "values" => runValuesCase j
   | "conc" | "rexp" => Json.mkObj [("model", Json.str "theorems only: outcomes are compared with solo runs / Go regexp by the harness")]
   | f => Json.mkObj [("bad", Json.str s!"unknown family {f}")]
 
